@@ -213,7 +213,14 @@ int close(int fd) { REAL(close); char nm[32]; int e, r;
   r = real(fd); if (fd >= 3) { int se = errno; slog("close %d = %d", fd, r); errno = se; } return r; }
 #include <time.h>
 pid_t getpid(void) { REAL(getpid); const char *e = getenv("SYSSHIM_PID"); return e ? (pid_t) atol(e) : real(); }
-time_t time(time_t *t) { REAL(time); const char *e = getenv("SYSSHIM_TIME"); time_t v = e ? (time_t) atol(e) : real(0); if (t) *t = v; return v; }
+/* SYSSHIM_TIME=<t>: frozen clock.  SYSSHIM_TIMEFILE=<path>: the clock is whatever decimal number that file holds now
+   (a virtual clock stepped by the controller); falls back to the real time if the file cannot be read */
+time_t time(time_t *t) { REAL(time); const char *e = getenv("SYSSHIM_TIME"); const char *f = getenv("SYSSHIM_TIMEFILE"); time_t v;
+  if (f) { char b[32]; int fd = syscall(SYS_open, f, O_RDONLY); ssize_t n = fd >= 0 ? syscall(SYS_read, fd, b, sizeof b - 1) : -1;
+    if (fd >= 0) syscall(SYS_close, fd);
+    if (n > 0) { b[n] = 0; v = (time_t) atol(b); } else v = real(0); }
+  else v = e ? (time_t) atol(e) : real(0);
+  if (t) *t = v; return v; }
 int setgroups(size_t n, const gid_t *l) { REAL(setgroups); int e = fault("setgroups", ""), r;
   if (e) { errno = e; slog("setgroups %zu %u = -1 %d INJECTED", n, n ? (unsigned) l[0] : 0u, e); return -1; }
   r = real(n, l); { int se = errno; slog("setgroups %zu %u = %d %d", n, n ? (unsigned) l[0] : 0u, r, r ? se : 0); errno = se; } return r; }
